@@ -11,7 +11,8 @@ EXPLANATION = ("R17.1 writer and reader tables agree: the lower-cased Display na
                "blanks; the TOML keys written by to_toml_impl are fields of the Deserialize struct of from_toml; both renderers take the default "
                "(nameless) entry from the END of the sorted filter vector, where level_sort puts it, and list every named entry; R17.2 no may-panic "
                "site reachable from parse / from_toml / to_toml / Display / TryFrom other than the is_empty-guarded index; R17.3 parse returns Ok only "
-               "on the `no error text` edge and Err(Parse(text, spec)) otherwise; a segment that produced an error text is never pushed to the result. R17.1 also (rows): every entry with a module name is written on every path, whatever else the path examines.")
+               "on the `no error text` edge and Err(Parse(text, spec)) otherwise; a segment that produced an error text is never pushed to the result. R17.1 also (rows): every entry with a module name is written on every path, whatever else the path examines."
+               " R17.1 also (rows of parse): every pushed level is the result of parse_level_filter or the documented `all levels` of a bare name; every stored module name is a piece of the input (split / trim / copy only).")
 ASSUMPTIONS = ["Display of log::LevelFilter prints OFF/ERROR/WARN/INFO/DEBUG/TRACE (log crate)", "toml and regex crates"]
 NOT_DECIDED = ["semantic equivalence of the re-parsed specification for all specifications and strings", "what counts as malformed", "toml/regex behaviour"]
 FLOORS = {'R17.1': 12, 'R17.2': 1, 'R17.3': 3}
